@@ -104,6 +104,12 @@ type histOpts struct {
 	// decoder that lets the padding bits (Cfg.PadCols) leak into the count of present columns reads the NULL
 	// bitmap one byte too long.  Tables of up to 8 columns cannot show that.
 	oddCols bool
+	// rawTypes: every ignorable event is an event of one of these type codes (taken in turn), with a random body,
+	// and ignorable events are frequent (every second slot instead of every sixth).
+	rawTypes []int
+	// txDDL: a transaction may contain DDL-classified statements (CREATE / DROP TEMPORARY TABLE are logged inside the
+	// transaction that ran them and do not commit it); they are part of the transaction and delivered at its commit.
+	txDDL bool
 }
 
 var allUnitKinds = []string{"txXid", "txCommit", "txRollback", "ddl", "autoRows", "stmtDml", "rotation", "restart", "ignorable", "unknownStmt", "setStmt", "emptyTx"}
@@ -169,7 +175,27 @@ func genHistory(r *vh.Rng, cfg Cfg, o histOpts) *history {
 		}
 		return vh.L(vh.A("query"), vh.I(int64(r.Intn(1000))), vh.I(int64(r.Intn(10))), vh.I(0), vh.L(vars...), vh.X([]byte(db)), vh.X([]byte(sql))), cs
 	}
+	rawNext, rawNextTx, inTx := 0, 0, false
+	ignChance := func() bool {
+		if len(o.rawTypes) > 0 {
+			return o.ignorables
+		}
+		return o.ignorables && r.Chance(1, 6)
+	}
 	ignorable := func() {
+		if len(o.rawTypes) > 0 {
+			// two cycles over the codes: one for the events between units, one for those inside transactions
+			var t int
+			if inTx {
+				t = o.rawTypes[rawNextTx%len(o.rawTypes)]
+				rawNextTx++
+			} else {
+				t = o.rawTypes[rawNext%len(o.rawTypes)]
+				rawNext++
+			}
+			add("raw", vh.L(vh.A("raw"), vh.I(int64(t)), vh.X(r.Bytes(r.Intn(24)))), nil, nil)
+			return
+		}
 		switch r.Intn(6) {
 		case 0:
 			add("gtid", vh.L(vh.A("gtid"), vh.I(int64(r.Intn(2))), vh.X(r.Bytes(16)), vh.I(int64(1+r.Intn(1000)))), nil, nil)
@@ -189,7 +215,7 @@ func genHistory(r *vh.Rng, cfg Cfg, o histOpts) *history {
 	rowsStmt := func(ex *[]expEvent) {
 		t := &h.tables[r.Intn(len(h.tables))]
 		add("tablemap", t.bodyVal(), t, nil)
-		if o.ignorables && r.Chance(1, 6) {
+		if ignChance() {
 			ignorable()
 		}
 		nev := 1
@@ -239,11 +265,18 @@ func genHistory(r *vh.Rng, cfg Cfg, o histOpts) *history {
 			if k == "emptyTx" {
 				ns = 0
 			}
+			inTx = true
 			for s := 0; s < ns; s++ {
-				if o.ignorables && r.Chance(1, 6) {
+				if ignChance() {
 					ignorable()
 				}
-				if r.Chance(1, 6) {
+				if (o.txDDL && r.Chance(1, 3)) || r.Chance(1, 10) {
+					sqlw := r.PickS("create", "drop", "alter", "truncate", "rename", "set")
+					sql := randCase(r, sqlw) + r.PickS(" temporary table tmp1 (a int)", " table x", " @a=1")
+					q, cs := query("db1", sql, r.Bool())
+					add("query", q, nil, nil)
+					ex = append(ex, expEvent{typ: stmtCodes[sqlw], qdb: "db1", qsql: sql, charset: cs, ts: h.events[len(h.events)-1].ts})
+				} else if r.Chance(1, 6) {
 					sqlw := r.PickS("insert", "update", "delete")
 					sql := randCase(r, sqlw) + " into t values (1)"
 					q, cs := query("db1", sql, r.Bool())
@@ -253,6 +286,7 @@ func genHistory(r *vh.Rng, cfg Cfg, o histOpts) *history {
 					rowsStmt(&ex)
 				}
 			}
+			inTx = false
 			switch k {
 			case "txXid", "emptyTx":
 				add("xid", vh.L(vh.A("xid"), vh.U(r.U64())), nil, nil)
